@@ -109,8 +109,8 @@ RECURSIVE Eval(_, _), EvalPath(_, _, _, _), EvalFilters(_, _, _), EvalArgs(_, _,
 Lit(s, st) == IF st.cfg.autoescape THEN Safe(s) ELSE Str(s)
 
 \* filters that take an arrow function (filter_reference.md: "lambda expressions")
-LambdaFilters == {"map", "where", "reject", "find", "find_index", "has", "compact", "sort", "uniq", "sum"}
-PathBodyOnly == {"map", "compact", "sort", "uniq", "sum"}     \* their arrow function must be a path
+LambdaFilters == {"map", "where", "reject", "find", "find_index", "has", "compact", "sort", "uniq", "sum", "sort_numeric", "sort_natural"}
+PathBodyOnly == {"map", "compact", "sort", "uniq", "sum", "sort_numeric", "sort_natural"}     \* their arrow function must be a path
 
 CmpRes(op, l, r, st) ==
   LET lt == LLt(l, r)
@@ -281,6 +281,8 @@ ApplyLambda(name, lam, left, st) ==
          [] name = "find_index" -> IF idx = 0 THEN Nil ELSE IntV(idx - 1)
          [] name = "has" -> Bool(idx # 0)
          [] name = "sort" -> IF AllScalars(vals) /\ Homogeneous(vals) THEN Arr(SortByKeys(seq, vals)) ELSE Err("UNSPEC")
+         [] name = "sort_numeric" -> IF NumKeysOK(vals) THEN Arr(SortByKeysLt(NumKeyLt, seq, vals)) ELSE Err("UNSPEC")
+         [] name = "sort_natural" -> IF NatKeysOK(vals) THEN Arr(SortByKeysLt(NatKeyLt, seq, vals)) ELSE Err("UNSPEC")
          [] name = "uniq" -> IF \A i \in DOMAIN vals : vals[i].t = "str" \/ (vals[i].t = "int" /\ vals[i].n \notin {0, 1})
                              THEN Arr(UniqBy(seq, vals, 1, <<>>)) ELSE Err("UNSPEC")
          [] name = "sum" -> IF \A i \in DOMAIN vals : vals[i].t \in {"int", "nil", "undef"}
